@@ -377,3 +377,84 @@ def kinematic_leaves(ctx):
                 continue
             seen.add(tag)
             ctx.eq("q2[%s]" % tag, x["|q|2"], _breakup2(m0, m1, m2), clause="data['decay'][chain][%s]['|q|2'] == lambda(m0^2, m1^2, m2^2)/(4 m0^2) of the invariant masses" % tag)
+
+
+# ---------------------------------------------------------------------------------------------
+# C01, the part of frame independence that is decided by the mass-type leaves: the real cal_angle on a Lorentz-boosted / rotated event stores
+# the same 'm' and '|q|2' in every leaf as on the original event (so line shapes and barrier factors are frame independent for ALL events).
+# The transformation applied to the event is written from the textbook formula (independent of tf_pwa.angle).
+# ---------------------------------------------------------------------------------------------
+@group(["C01"], "cal_angle/mass_leaves_frame_independent", ["cal_angle:cal_angle_from_momentum", "cal_angle:add_mass", "cal_angle:add_relative_momentum", "angle:LorentzVector.M",
+                                                           "angle:LorentzVector.M2"],
+       env="shim", kind="P", no_native=True, cost=6,
+       bound="three final-state particles, all three chain topologies; symbolic four-momenta (time-like, E > 0); a common boost with symbolic velocity |v| < 1 (rotations: angle.rotation/invariants)",
+       assumes=["lemma (reverse triangle inequality, not machine-checked): sums of future-directed time-like four-vectors are time-like"])
+def mass_leaves_invariant(ctx):
+    tf, shim = ctx.tf, ctx.shim
+    import numpy
+
+    if not hasattr(numpy, "Inf"):
+        numpy.Inf = numpy.inf
+    sname = M.spinless_struct(_MSETS[0], (1, 2, 3))
+    config = ctx.mod("config_loader").ConfigLoader(copy.deepcopy(M.build_config(sname)))
+    names = M.final_names(sname)
+
+    def smp(rng):
+        px, py, pz = [rng.uniform(-1, 1) for _ in range(3)]
+        m = rng.uniform(0.2, 1.0)
+        return [[math.sqrt(m * m + px * px + py * py + pz * pz), px, py, pz]]
+
+    P = {k: ctx.real("p" + k, (1, 4), sample=smp) for k in "BCD"}
+    v = ctx.real("v", (3,), sample=lambda rng: [rng.uniform(-0.5, 0.5) for _ in range(3)])
+    ang = ctx.real("phi", (), sample=lambda rng: rng.uniform(-3, 3))
+    v2 = v[0] * v[0] + v[1] * v[1] + v[2] * v[2]
+    ctx.require(v2 < 1.0)
+
+    def mink(a, b):
+        return a[:, 0] * b[:, 0] - a[:, 1] * b[:, 1] - a[:, 2] * b[:, 2] - a[:, 3] * b[:, 3]
+
+    for k in "BCD":
+        ctx.require(mink(P[k], P[k]) > 0.0)
+        ctx.require(P[k][:, 0] > 0.0)
+    for keys in ("BC", "BD", "CD", "BCD"):
+        tot = None
+        for k in keys:
+            tot = P[k] if tot is None else tot + P[k]
+        ctx.lemma(mink(tot, tot) > 0.0)
+    g = 1.0 / tf.sqrt(1.0 - v2)
+
+    def boost(p):
+        E, x, y, z = p[:, 0], p[:, 1], p[:, 2], p[:, 3]
+        bp = v[0] * x + v[1] * y + v[2] * z
+        k = g * g / (1.0 + g)
+        sh = k * bp + g * E
+        return tf.stack([g * (E + bp), x + sh * v[0], y + sh * v[1], z + sh * v[2]], axis=-1)
+
+    def rot(axis):
+        def f(p):
+            c, s_ = tf.cos(ang), tf.sin(ang)
+            comp = [p[:, 1], p[:, 2], p[:, 3]]
+            a, b = [(1, 2), (2, 0), (0, 1)][axis]  # the two components mixed by a rotation about `axis`
+            out = list(comp)
+            out[a] = c * comp[a] - s_ * comp[b]
+            out[b] = s_ * comp[a] + c * comp[b]
+            return tf.stack([p[:, 0]] + out, axis=-1)
+
+        return f
+
+    d1 = config.data.cal_angle({n: P["BCD"[i]] for i, n in enumerate(names)})
+    # rotations: the same claim goes through `angle.rotation/invariants` (M2 and Dot are rotation invariant, proved) because the mass leaves are
+    # functions of M2 of sums only; running cal_angle on a symbolically rotated event was tried and is too slow (trigonometric case conditions)
+    for tname, transform in (("boost", boost),):
+        d2 = config.data.cal_angle({n: transform(P["BCD"[i]]) for i, n in enumerate(names)})
+        for (k1, leaf1), (k2, leaf2) in zip(d1["particle"].items(), d2["particle"].items()):
+            assert str(k1) == str(k2)
+            ctx.eq("%s/m[%s]" % (tname, str(k1).replace(" ", "")), leaf2["m"], leaf1["m"], skip_def=True,
+                   clause="data['particle'][%s]['m'] of the transformed event (%s, symbolic velocity / angle) == that of the original event" % (k1, tname))
+        seen = set()
+        for (c1, dd1), (c2, dd2) in zip(d1["decay"].items(), d2["decay"].items()):
+            for (dec1, x1), (dec2, x2) in zip(dd1.items(), dd2.items()):
+                if isinstance(x1, dict) and "|q|2" in x1 and str(dec1) not in seen:
+                    seen.add(str(dec1))
+                    ctx.eq("%s/q2[%s]" % (tname, str(dec1).replace(" ", "")), x2["|q|2"], x1["|q|2"], skip_def=True,
+                           clause="data['decay'][..][%s]['|q|2'] of the transformed event (%s) == that of the original event" % (dec1, tname))
